@@ -3,7 +3,7 @@
 #   repo      /repo is clean, no test/testdata file differs from the pinned snapshot, every commit is a hook or a fix:,
 #             hook commits only add lines, every fix: commit has an entry in known-findings.json
 #   baseline  full baseline suite on a scratch worktree of HEAD, compared with /root/.vp/BASELINE.json
-#   sweep     every check, quick tier, VERIF_SEED 1 2 3 on the unchanged tree (4 at a time)
+#   sweep     every check, quick tier, VERIF_SEED in $SWEEP_SEEDS (default 1..8) on the unchanged tree (4 at a time)
 #   load      every check once, all 20 at the same time (false alarms under load)
 #   seeds     seeded/recheck.sh for every stored seed (fresh worktree of HEAD + stored patch), 3 at a time
 #   docs      MANIFEST.json, DESIGN.md tables, schema validation
@@ -44,7 +44,7 @@ baseline)
   git -C /repo worktree remove --force $WT >/dev/null 2>&1
   ;;
 sweep)
-  for s in 1 2 3; do
+  for s in ${SWEEP_SEEDS:-1 2 3 4 5 6 7 8}; do
     printf "%s\n" $PIDS | xargs -P 4 -I{} bash -c "VERIF_SEED=$s ./check {} > $OUT/sweep_{}_$s.log 2>&1; echo \"{} seed=$s rc=\$? \$(grep -c '^VIOLATION' $OUT/sweep_{}_$s.log) violations \$(grep -c '^KNOWN-FINDING' $OUT/sweep_{}_$s.log) known \$(tail -1 $OUT/sweep_{}_$s.log | grep -o '^\[[^]]*\]')\""
   done | tee $OUT/sweep.txt
   ;;
